@@ -46,6 +46,7 @@ def main():
             "demo_rc_with_change": (conf.get("demo_with_change") or {}).get("rc"),
             "demo_rc_without_change": (conf.get("demo_clean") or {}).get("rc"),
             "repo_suite_with_change": ((conf.get("tests") or {}).get("tail") or "").strip().splitlines()[-2:],
+            "cli_tests_rerun_serially": conf.get("cli_retry"),
         },
     }
     if "--note" in opt:
